@@ -398,6 +398,12 @@ func harnessIntrinsic(short string) intrinsicFn {
 		}
 	case "vReach":
 		return func(x *Exec, _ *ssa.Function, a []Value) Value { x.reached[x.strOf(a[0])] = true; return nil }
+	case "vUnsupported":
+		// a harness stub reached a path it does not model: the run is inconclusive, never a violation
+		return func(x *Exec, _ *ssa.Function, a []Value) Value {
+			x.abort("UNSUPPORTED", "harness: "+x.strOf(a[0]))
+			return nil
+		}
 	case "vAllowPanic":
 		return func(x *Exec, _ *ssa.Function, a []Value) Value {
 			x.allowPanic = append(append([]string{}, x.allowPanic...), x.strOf(a[0]))
